@@ -231,3 +231,23 @@ pub fn container_strategy() -> impl Strategy<Value = Container> {
         1 => Just(Container::BcfRaw),
     ]
 }
+
+/// Does `text` contain `needle` as a whole token, i.e. not as part of a longer identifier or number?
+pub fn has_bounded(text: &str, needle: &str) -> bool {
+    if needle.is_empty() {
+        return false;
+    }
+    let bytes = text.as_bytes();
+    text.match_indices(needle).any(|(i, m)| {
+        let before_ok = i == 0 || !(bytes[i - 1].is_ascii_alphanumeric() || bytes[i - 1] == b'_');
+        let end = i + m.len();
+        let after_ok = end == bytes.len() || !(bytes[end].is_ascii_alphanumeric() || bytes[end] == b'_');
+        before_ok && after_ok
+    })
+}
+
+/// Does a diagnostic name the site: the contig name and the position, each as a whole token
+/// (whatever the punctuation between them; contig names may themselves contain `:`, `*`, `.`, `-`)?
+pub fn names_site(stderr: &str, contig: &str, pos: u64) -> bool {
+    has_bounded(stderr, contig) && has_bounded(stderr, &pos.to_string())
+}
